@@ -56,7 +56,15 @@ func runC02(e *core.Env) {
 	gr := g.Graph(gen.Opts{NoDigestTags: true})
 	nodes := gr.AllNodes()
 	n := nodes[e.Choose("gen", len(nodes), "which")]
-	useLayout := e.Choose("gen", 4, "endpoint") == 3 && g.Alg == "sha256"
+	signed := false
+	if e.Choose("gen", 6, "signed-schema1") == 5 {
+		// a signed schema1 manifest: its digest names the canonical payload, not the raw bytes
+		n = g.Schema1Signed()
+		gr = &gen.Graph{Root: n, DigestTags: map[string]*gen.Node{}, Alg: g.Alg, Shape: "schema1-signed"}
+		nodes = gr.AllNodes()
+		signed = true
+	}
+	useLayout := e.Choose("gen", 4, "endpoint") == 3 && g.Alg == "sha256" && !signed
 	behaviour := c02Behaviours[e.Choose("net", len(c02Behaviours), "behaviour")]
 	if useLayout {
 		behaviour = []string{"ok", "stored-flip", "stored-truncate", "stored-substitute"}[e.Choose("disk", 4, "stored")]
@@ -184,14 +192,17 @@ func runC02(e *core.Env) {
 	}
 	d := m.GetDescriptor()
 	alg := string(d.Digest.Algorithm())
-	if regmodel.Digest(alg, raw) != d.Digest.String() {
-		e.Violation("digest", "descriptor-digest-not-of-raw", "fetched manifest reports digest %s but its raw bytes hash to %s (behaviour %s, expected via %s)", short(d.Digest.String()), short(regmodel.Digest(alg, raw)), behaviour, how)
+	if regmodel.ManifestDigest(alg, d.MediaType, raw) != d.Digest.String() {
+		e.Violation("digest", "descriptor-digest-not-of-raw", "fetched manifest reports digest %s but its bytes hash to %s (behaviour %s, expected via %s)", short(d.Digest.String()), short(regmodel.ManifestDigest(alg, d.MediaType, raw)), behaviour, how)
 	}
-	if d.Size != int64(len(raw)) {
+	if signed {
+		e.Probe("signed-schema1-fetched")
+	}
+	if d.Size != int64(len(raw)) && !signed {
 		e.Violation("digest", "descriptor-size-not-of-raw", "fetched manifest reports size %d, raw bytes are %d", d.Size, len(raw))
 	}
 	for _, x := range expected {
-		if regmodel.Digest(string(digest.Digest(x).Algorithm()), raw) != x {
+		if regmodel.ManifestDigest(string(digest.Digest(x).Algorithm()), d.MediaType, raw) != x {
 			e.Violation("digest", "returned-despite-expected-digest", "a manifest was returned although the expected digest %s (via %s) is not the hash of its bytes (behaviour %s)", short(x), how, behaviour)
 		}
 	}
@@ -203,7 +214,7 @@ func runC02(e *core.Env) {
 				announced = x.RespHdr.Get("Docker-Content-Digest")
 			}
 		}
-		if announced != "" && regmodel.IsDigest(announced) && regmodel.Digest(string(digest.Digest(announced).Algorithm()), raw) != announced {
+		if announced != "" && regmodel.IsDigest(announced) && regmodel.ManifestDigest(string(digest.Digest(announced).Algorithm()), d.MediaType, raw) != announced {
 			e.Violation("digest", "returned-despite-announced-digest", "the registry announced %s, the bytes hash to something else, yet the manifest was returned (behaviour %s)", short(announced), behaviour)
 		}
 	}
@@ -222,8 +233,14 @@ func runC02(e *core.Env) {
 	}
 	rp := rec.Repos["copy/app"]
 	got := rp.Manifests[rp.Tags["again"]]
-	if got == nil || !bytes.Equal(got.Raw, raw) {
-		e.Violation("repush", "repush-changed-bytes", "re-pushing the fetched manifest sent different bytes (digest would change from %s)", short(d.Digest.String()))
+	if got == nil {
+		e.Violation("repush", "repush-changed-digest", "re-pushing the fetched manifest did not store it under its digest %s", short(d.Digest.String()))
+	} else if !bytes.Equal(got.Raw, raw) {
+		// a signed schema1 body may lose insignificant bytes outside its canonical payload (trailing
+		// white space a server appended); what the statement forbids is a changed digest
+		if !signed || regmodel.ManifestDigest(alg, d.MediaType, got.Raw) != d.Digest.String() {
+			e.Violation("repush", "repush-changed-bytes", "re-pushing the fetched manifest sent different bytes (digest would change from %s)", short(d.Digest.String()))
+		}
 	}
 	e.Probe("repushed")
 }
@@ -301,14 +318,14 @@ func c02Setters(e *core.Env) {
 				return false
 			}
 			for i := range x {
-				if x[i].Digest != y[i].Digest || x[i].Size != y[i].Size {
+				if x[i].Digest != y[i].Digest || x[i].Size != y[i].Size || !bytes.Equal(x[i].Data, y[i].Data) {
 					e.Violation("setter", "layers-not-roundtrip", "after %s layer %d differs after parsing back", step, i)
 					return false
 				}
 			}
 			cx, errx := im.GetConfig()
 			cy, erry := back.(manifest.Imager).GetConfig()
-			if (errx == nil) != (erry == nil) || cx.Digest != cy.Digest {
+			if (errx == nil) != (erry == nil) || cx.Digest != cy.Digest || !bytes.Equal(cx.Data, cy.Data) {
 				e.Violation("setter", "config-not-roundtrip", "after %s config %s parses back as %s", step, short(cx.Digest.String()), short(cy.Digest.String()))
 				return false
 			}
@@ -335,7 +352,41 @@ func c02Setters(e *core.Env) {
 	for i := 0; i < nsteps; i++ {
 		var step string
 		var serr error
-		switch e.Choose("gen", 7, "setter") {
+		switch e.Choose("gen", 9, "setter") {
+		case 7:
+			step = "SetConfig(data only)"
+			if im, ok := m.(manifest.Imager); ok {
+				if cd, cerr := im.GetConfig(); cerr == nil {
+					if len(cd.Data) > 0 {
+						cd.Data = nil
+					} else {
+						for _, x := range nodes {
+							for _, b := range x.Blobs {
+								if b.Desc.Digest == cd.Digest.String() {
+									cd.Data = b.Data
+								}
+							}
+						}
+						if len(cd.Data) == 0 {
+							cd.Data = []byte("{}")
+						}
+					}
+					serr = im.SetConfig(cd)
+				}
+			}
+		case 8:
+			step = "SetLayers(data only)"
+			if im, ok := m.(manifest.Imager); ok {
+				if dl, lerr := im.GetLayers(); lerr == nil && len(dl) > 0 {
+					k := e.Choose("gen", len(dl), "layer")
+					if len(dl[k].Data) > 0 {
+						dl[k].Data = nil
+					} else {
+						dl[k].Data = []byte("inline")
+					}
+					serr = im.SetLayers(dl)
+				}
+			}
 		case 0:
 			step = "SetAnnotation"
 			if a, ok := m.(manifest.Annotator); ok {
